@@ -194,27 +194,33 @@ Proof.
   destruct (has_files (C.magefiles su goos goarch false top)); reflexivity.
 Qed.
 
-(* Lifecycle.invoke (Invoke from its first line) takes the branches C10's choose_dir names, with
-   [orig_has_files] = "Magefiles(originalDir) succeeded with a non-empty list".  It runs the TOP
-   directory with f_mfdir = false always; C10's [top_named] (filepath.Base(inv.Dir) = "magefiles",
-   i.e. `mage -d .../magefiles`) has no counterpart there: agreement holds for top_named = false
-   (see the notes: the real mage behaves as C10 says). *)
-Lemma lifecycle_invoke_follows_choose_dir_partial : forall w faults fl su goos goarch top (d : L.fs),
+(* Lifecycle.invoke_named (Invoke from its first line) takes the branches C10's choose_dir names,
+   with [orig_has_files] = "Magefiles(originalDir) succeeded with a non-empty list", and runs the
+   chosen directory with f_mfdir = the isMagefilesDirectory argument C10's invoke_magefiles gives
+   to Magefiles: [top_named] (filepath.Base(inv.Dir) = "magefiles", i.e. `mage -d .../magefiles`)
+   for the directory itself, true for its magefiles sub-directory. *)
+Lemma lifecycle_invoke_follows_choose_dir : forall w faults fl su goos goarch tn top sub0 (d : L.fs),
   let ohf := has_files (C.magefiles su goos goarch false top) in
   let has_sub := match L.lookup (L.rs w d) L.magefilesDir with Some (L.Dir _) => true | _ => false end in
   match C.choose_dir su goos goarch has_sub top with
-  | C.Top => exists d', L.invoke w faults fl ohf d = L.invoke_dir w faults (L.with_mfdir fl false) d'
-  | C.Sub => exists sub, L.lookup (L.rs w d) L.magefilesDir = Some (L.Dir sub) /\
-                         L.invoke w faults fl ohf d =
+  | C.Top => C.invoke_magefiles su goos goarch has_sub tn top sub0 = (C.Top, C.magefiles su goos goarch tn top) /\
+             exists d', L.invoke_named w faults fl tn ohf d = L.invoke_dir w faults (L.with_mfdir fl tn) d'
+  | C.Sub => C.invoke_magefiles su goos goarch has_sub tn top sub0 = (C.Sub, C.magefiles su goos goarch true sub0) /\
+             exists sub, L.lookup (L.rs w d) L.magefilesDir = Some (L.Dir sub) /\
+                         L.invoke_named w faults fl tn ohf d =
                            (let '(sub2, c) := L.invoke_dir w faults (L.with_mfdir fl true) (L.rs w sub) in
                             (L.set L.magefilesDir (L.Dir sub2) (L.rs w d), c))
   end.
 Proof.
-  intros w faults fl su goos goarch top d ohf has_sub. rewrite choose_dir_is_lifecycle_branch.
-  unfold has_sub, L.invoke. fold ohf.
-  destruct (L.lookup (L.rs w d) L.magefilesDir) as [[b|sub|t]|]; try (eexists; reflexivity).
-  destruct ohf; [eexists; reflexivity|]. exists sub. split; reflexivity.
+  intros w faults fl su goos goarch tn top sub0 d ohf has_sub. unfold C.invoke_magefiles.
+  rewrite choose_dir_is_lifecycle_branch. unfold has_sub, L.invoke_named. fold ohf.
+  destruct (L.lookup (L.rs w d) L.magefilesDir) as [[b|sub|t]|]; try (split; [reflexivity|eexists; reflexivity]).
+  destruct ohf; [split; [reflexivity|eexists; reflexivity]|]. split; [reflexivity|]. exists sub. split; reflexivity.
 Qed.
+
+(* the same for L.invoke, which is L.invoke_named with top_named = false *)
+Lemma lifecycle_invoke_is_named : forall w faults fl ohf d, L.invoke w faults fl ohf d = L.invoke_named w faults fl false ohf d.
+Proof. exact LF.invoke_is_named. Qed.
 
 (* ---------------------------------------------------------------------------------------- *)
 (* (2) C09's reuse-or-build branch is C08's cache decision                                    *)
